@@ -448,8 +448,7 @@ Definition in_codon_alphabet (dict : list (str * Z)) (include_stop : bool) (u : 
     AlphabetError if a symbol is unknown or nothing is left (then, with incomplete_ok and a "-" in
     the codon, the codon itself) --, the amino acid gc[codon] of every resolution (stop codons
     skipped unless include_stop), and the protein symbol that stands for all of them *)
-Definition old_codon (aa : str) (incomplete_ok include_stop : bool) (w : str) : res Z :=
-  let dict := codon_dict aa in
+Definition old_codon_d (dict : list (str * Z)) (incomplete_ok include_stop : bool) (w : str) : res Z :=
   let resolved : res (list str) :=
     if in_codon_alphabet dict include_stop w then Ok [w]
     else match mapM (fun c => match assocZ c dna_ambig_old with Some s => Ok s | None => Err E_Alpha end) w with
@@ -476,11 +475,15 @@ Definition old_codon (aa : str) (incomplete_ok include_stop : bool) (w : str) : 
   | trans => Ok (protein_what_ambiguity include_stop trans)
   end)).
 
+Definition old_codon (aa : str) (incomplete_ok include_stop : bool) (w : str) : res Z :=
+  old_codon_d (codon_dict aa) incomplete_ok include_stop w.
+
 (** old [Sequence.get_translation] *)
 Definition seq_get_translation_old (aa : str) (s : str) (incomplete_ok include_stop trim_stop : bool) : res str :=
   bind (if include_stop || negb trim_stop then Ok s
         else trim_stop_codon Old aa s (negb incomplete_ok)) (fun seq =>
-    mapM (old_codon aa incomplete_ok include_stop) (chunks3 seq)).
+    let dict := codon_dict aa in   (* gc.codons, built once *)
+    mapM (old_codon_d dict incomplete_ok include_stop) (chunks3 seq)).
 
 (* ------------------------------------------------------------------ collections and alignments *)
 
